@@ -28,8 +28,10 @@ META = {
     "kernel, axioms propext/Quot.sound/Classical.choice; amaranth.lib.memory.Memory port semantics as modelled in "
     "TxV/Model/BankMem.lean and MemoryBank.lean (read register with enable, transparency, granularity; exercised, "
     "not verified); pysim; harness glue. memory_type: default amaranth Memory in the theorems; MultiReadMemory, "
-    "MultiportXORMemory, MultiportXORILVTMemory, MultiportOneHotILVTMemory (2 and 3 write ports, no granularity) are "
-    "run against the same ideal-memory model and monitor (their own refinement is C23).",
+    "MultiportXORMemory, MultiportXORILVTMemory, MultiportOneHotILVTMemory (2 and 3 write ports, no granularity) and "
+    "MultiReadMemory with granularity and partial masks is run against the same ideal-memory "
+    "model and monitor (their own refinement is C23; MultiportXORMemory rejects granularity, ILVT classes with "
+    "granularity are the open C23 finding F9 and are not generated).",
 }
 
 _sims: dict[tuple, CompSim] = {}
@@ -41,11 +43,9 @@ def _sim(d: dict) -> CompSim:
     if key not in _sims:
         from transactron.lib.storage import MemoryBank
 
-        kw = {}
-        if d.get("memory_type", "Memory") != "Memory":
-            import transactron.utils.amaranth_ext.memory as tmem
+        from ..memtypes_b5 import memory_kwargs
 
-            kw["memory_type"] = getattr(tmem, d["memory_type"])
+        kw = memory_kwargs(d.get("memory_type", "Memory"))
         mk = lambda: MemoryBank(  # noqa: E731
             shape=d["g"] * d["n"],
             depth=d["depth"],
@@ -438,7 +438,7 @@ def gen_cases(ctx: Check):
             # model-vs-implementation agreement in that region checked through an unmonitored copy of the directed case
             d2 = dict(d, f5=False, f5_region_agreement_only=True)
             cases.append(Case(cfg, directed(d) + gen_ops(rng, d, 40, 0.8, 0.5, 0.8), d2, "f5-region"))
-        regs = rng.sample(REGIMES, ctx.pick(3, 5))
+        regs = rng.sample(REGIMES, ctx.pick(2, 5))
         for pq, ps, pw in regs:
             cases.append(Case(cfg, gen_ops(rng, d, cyc, pq, ps, pw, hot=rng.random() < 0.7), d, tag_extra or "random"))
         if d["wp"] > 1 and rng.random() < 0.5:
@@ -454,8 +454,25 @@ def gen_cases(ctx: Check):
     for mi, mt in enumerate(mts):
         for wp in ((1,) if mt == "MultiReadMemory" else (2, 3)):
             for t, r in (modes if ctx.thorough else [modes[(mi + wp) % 4], modes[(mi + wp + 2) % 4]]):
-                d = _desc(rng.choice([4, 8]), 8, 1, 0, t, r, rng.choice([1, 2]), wp, memory_type=mt)
+                # address width > number of write ports (one-hot ILVT bypass compares whole addresses)
+                depth = {1: rng.choice([4, 8]), 2: rng.choice([8, 16]), 3: 16}[wp]
+                d = _desc(depth, 8, 1, 0, t, r, rng.choice([1, 2]), wp, memory_type=mt)
                 ops = []
+                # aliasing rows: row A = B + 2**wp written through port p; later row B (same low address bits)
+                # through another port q in cycle t; read_req of A in cycle t+1, response after it
+                if wp >= 2:
+                    idle = fmt_op([None] * d["rp"], [True] * d["rp"], [None] * wp)
+                    for p_ in range(wp):
+                        q_ = (p_ + 1) % wp
+                        B = p_ + 1 if p_ + 1 < (1 << wp) else p_  # B below 2**wp, A = B + 2**wp: the same low bits
+                        A = B + (1 << wp)
+                        ops.append(fmt_op([None] * d["rp"], [False] * d["rp"], [(A, 0xC1 + p_, 1) if k == p_ else None for k in range(wp)]))
+                        ops += [idle, idle]
+                        ops.append(fmt_op([None] * d["rp"], [False] * d["rp"], [(B, 0x3E - p_, 1) if k == q_ else None for k in range(wp)]))
+                        ops.append(fmt_op([A] * d["rp"], [False] * d["rp"], [None] * wp))
+                        ops += [idle, idle]
+                        ops.append(fmt_op([B] * d["rp"], [False] * d["rp"], [None] * wp))
+                        ops += [idle, idle]
                 for j in range(wp):  # write row j+1 through port j alone, then read every written row back
                     ops.append(fmt_op([None] * d["rp"], [False] * d["rp"], [(j + 1, 0x51 + 0x11 * j, 1) if k == j else None for k in range(wp)]))
                 for rnd in range(2):
@@ -465,6 +482,37 @@ def gen_cases(ctx: Check):
                 ops += [fmt_op([None] * d["rp"], [True] * d["rp"], [None] * wp)] * 2
                 ops += gen_ops(rng, d, ctx.pick(60, 600), 0.8, 0.7, 0.6, hot=True)
                 cases.append(Case(_cfg(d), ops, d, "multiport"))
+    # other constructors of the default Amaranth memory (functools.partial, subclass, wrapper function)
+    from ..memtypes_b5 import ALIASES
+
+    for k, mt in enumerate(ALIASES):
+        t, r = modes[(k + ctx.seed) % 4]
+        g, n, gr = [(8, 1, 0), (4, 2, 1), (8, 1, 0)][k] if not r else (8, 1, 0)
+        d = _desc(rng.choice([3, 4, 8]), g, n, gr, t, r, 1 + k % 2, 1 + (k + 1) % 2, memory_type=mt)
+        cases.append(Case(_cfg(d), directed(d) + gen_ops(rng, d, cyc, 0.8, 0.6, 0.6, hot=True), d, "memory-type"))
+    # granularity together with the non-default memory_type value that supports it: MultiReadMemory (1 write port).
+    # MultiportXORMemory rejects granularity (ValueError); the ILVT classes with granularity are the open C23
+    # finding F9 (a partial write redirects the whole row) and are not generated here; read_on_resp with >= 2 chunks is F5 (those
+    # descriptors carry f5=true and are handled exactly like the default-memory F5 region).  Directed prefix: full
+    # write, a partial write with enable bit 0 clear, one with only bit 0 set, each read back; then random masks.
+    gshapes = [(4, 3), (4, 2), (2, 4)]
+    gi = 0
+    for mt, wp in (("MultiReadMemory", 1), ("MultiReadMemory", 1)):
+        gmodes = [(0, 0, None), (1, 0, None), (0, 1, (8, 1)), (1, 1, (8, 1))]  # with read_on_resp: one chunk per word
+        for t, r, shp in (gmodes if ctx.thorough else [gmodes[gi % 2], gmodes[(gi + 1) % 2], gmodes[2 + gi % 2]]):
+            g, n = shp or gshapes[gi % len(gshapes)]
+            gi += 1
+            d = _desc(rng.choice([4, 8]), g, n, 1, t, r, rng.choice([1, 2]), wp, memory_type=mt)
+            rp, width, full = d["rp"], g * n, (1 << n) - 1
+            W = lambda a, v, m: [(a, v & ((1 << width) - 1), m)] + [None] * (wp - 1)  # noqa: E731
+            ops = [fmt_op([None] * rp, [False] * rp, W(1, 0xABC, full))]
+            for mask, v in ((1 << (n - 1), 0x555), (1, 0xFFF), (full & ~1, 0x000), (1, 0x123)):
+                ops.append(fmt_op([None] * rp, [False] * rp, W(1, v, mask)))
+                ops.append(fmt_op([1] * rp, [False] * rp, [None] * wp))
+                ops.append(fmt_op([None] * rp, [True] * rp, [None] * wp))
+                ops.append(fmt_op([None] * rp, [True] * rp, [None] * wp))
+            ops += gen_ops(rng, d, ctx.pick(60, 600), 0.8, 0.7, 0.7, hot=True)
+            cases.append(Case(_cfg(d), ops, d, "multiport-granular"))
     # two callers per method: an exclusive method serves at most one of them per cycle; the union of the executed
     # calls is the single-caller history the property (and the model) talks about
     for k, (t, r) in enumerate(modes):
